@@ -345,7 +345,7 @@ def run(task):
             for seq in scenarios.kind_sequences(what, d):
                 ch, prog = explore.run(scenarios.nest_scenario(seq), ())
                 progs.append(("B/" + "-".join(seq), prog))
-        extras = ["! a comment", "include 'no_such_file.inc'", "#define X 1", "!$omp parallel", "#ifdef X", "", "#pragma once", "#ifdef", "#(x"]  # the last three: unknown / malformed preprocessor lines
+        extras = ["! a comment", "include 'no_such_file.inc'", "#define X 1", "!$omp parallel", "#ifdef X", "", "#pragma once", "#ifdef", "#(x", "#define Y 2 \\"]  # unknown / malformed preprocessor lines; a directive ending in the continuation backslash (also as the LAST line of the input)
         for pid, prog in progs:
             stmts = [s.line() for s in prog if s.kind != "program_anon"]
             base = "\n".join(" " + l for l in stmts) + "\n"
